@@ -68,30 +68,39 @@ def run_unit(args):
         rng = random.Random(seed * 7919 + idx)
         grid = list(case.grid(tier, rng))
         lim = int(os.environ.get("PYVC_GRID_LIMIT", "400" if tier == "quick" else "4000"))
+        if getattr(case, "grid_limit", None):
+            lim = min(lim, case.grid_limit if tier == "quick" else case.grid_limit * 10)
         if len(grid) > lim:
             grid = rng.sample(grid, lim)
-        cf = {"cases": 0, "outside": 0, "mismatches": []}
+        cf = {"cases": 0, "outside": 0, "mismatches": [], "unsupported": 0}
         st = {"cases": 0, "violations": []}
         undecided = [o for o in out["obligations"] if o["status"] == "undecided"]
+        whole = any(o["kind"] == "error" for o in undecided) or bool(out["error"])
         for values in grid:
-            try:
-                r = replay.conform(T, case, values)
-            except contract.C.Unsupported as e:
-                r = "unsupported in concrete mode: %s" % (e,)
-            if r == "outside":
-                cf["outside"] += 1
-                continue
-            cf["cases"] += 1
-            if r is not None and len(cf["mismatches"]) < 5:
-                cf["mismatches"].append({"values": contract.jsonable(values), "what": r})
+            if not whole:
+                try:
+                    r = replay.conform(T, case, values)
+                except contract.C.Unsupported as e:
+                    r = "unsupported"
+                if r == "outside":
+                    cf["outside"] += 1
+                    continue
+                if r == "unsupported":
+                    cf["unsupported"] += 1
+                else:
+                    cf["cases"] += 1
+                    if r is not None and len(cf["mismatches"]) < 5:
+                        cf["mismatches"].append({"values": contract.jsonable(values), "what": r})
             # the same grid is the bounded stand-in for undecided obligations of this case
             if undecided:
                 bad, what = replay.replay(case, values)
                 if bad is None:
                     continue
                 st["cases"] += 1
-                hit = [b for b in bad if any(b == o["short"] or o["short"].startswith(b) for o in undecided)]
-                regs_ok = True
+                if whole:
+                    hit = [b for b in bad if prop in case.props_of(_base(b))]
+                else:
+                    hit = [b for b in bad if any(b == o["short"] or o["short"].startswith(b) for o in undecided)]
                 if hit and len(st["violations"]) < 3:
                     st["violations"].append({"values": contract.jsonable(values), "violated": hit, "what": what})
         out["conformance"] = cf
@@ -317,6 +326,9 @@ def check_property(prop, tier="quick", seed=0):
     print("%s %s: %d obligations, %d discharged, %d undecided, %d refuted; %d conformance cases; %.1fs" % (prop, tier, n_ob, n_dis, len(undecided), violations, conf_cases, wall))
     for o in undecided:
         print("  UNDECIDED %s %s" % (o["name"], o["detail"]))
+    if os.environ.get("PYVC_TIMES"):
+        for r in sorted(results, key=lambda r: -r.get("seconds", 0))[:6]:
+            print("  TIME %.1fs %s" % (r.get("seconds", 0), r["case"]))
     if violations:
         return 1
     if checker_errors:
